@@ -173,6 +173,7 @@ func doEnum(c *core.Ctx, mode string, n *core.N) {
 	}
 	stop := 0
 	double := mode == "double"
+	score := mode == "score"
 	if strings.HasPrefix(mode, "stop:") {
 		stop, _ = strconv.Atoi(mode[5:])
 	}
@@ -192,11 +193,24 @@ func doEnum(c *core.Ctx, mode string, n *core.N) {
 			a = outcome(re.Apply)
 		}
 		wf1, d1, t1 := look(t)
+		if score {
+			// a tree search scores the neighbour: a read-only query that lists the branches of the tree
+			// between Apply and Undo, and nothing that lists them after Undo (seeded change C17-10)
+			core.Safe(func() { t.SumBranchLengths(); _ = len(t.Edges()) })
+		}
 		u := outcome(re.Undo)
 		if double && u == "ok" {
 			u = outcome(re.Undo)
 		}
-		wf2, d2, t2 := look(t)
+		var wf2, d2, t2 string
+		if score {
+			wf2, d2 = "ok", before // not looked at: the α walk would list the branches again
+			if p, msg := core.Safe(func() { t2 = core.Escape(t.Newick()) }); p {
+				wf2 = "newick-panic%3A" + core.Escape(msg)
+			}
+		} else {
+			wf2, d2, t2 = look(t)
+		}
 		fmt.Fprintf(&recs, "%s;%s;%s;%s;%s;%s;%s;%s|", a, wf1, d1, t1, u, wf2, same(d2, before), same(t2, text0))
 	}
 	r := &tree.NNIRearranger{}
@@ -657,6 +671,8 @@ func pickMode(g *core.G, n *core.N) string {
 	switch g.Intn(8) {
 	case 0:
 		return "double"
+	case 4:
+		return "score"
 	case 2:
 		return "collect"
 	case 3:
@@ -696,7 +712,7 @@ func Run(c *core.Ctx) {
 		Replay(c, core.ReadRequests(c.Arg))
 		return
 	}
-	nbase := c.Scale(70, 800)
+	nbase := c.Scale(70, 500)
 	nlarge := c.Scale(20, 12) // base trees on 15..40 tips (a sample of their root positions each)
 	for i := 0; i < nbase+nlarge; i++ {
 		var base *core.N
@@ -790,7 +806,7 @@ func Run(c *core.Ctx) {
 	}
 	// outside the property's scope, for the correspondence only: trees with multifurcations
 	// (Rearrange looks at the degrees of the two ends of a branch only)
-	for i := 0; i < c.Scale(25, 400); i++ {
+	for i := 0; i < c.Scale(25, 250); i++ {
 		o := opts(c.G, !c.Quick())
 		o.Multif = 0.7
 		o.MaxDeg = 4
@@ -817,7 +833,7 @@ func Run(c *core.Ctx) {
 	}
 	// CLI tier: `gotree nni` on trees as the Newick parser builds them (parent positions 0)
 	if c.Gotree != "" {
-		m := c.Scale(40, 400)
+		m := c.Scale(40, 250)
 		cliTree := func(prefix string) *core.N {
 			var base *core.N
 			for {
